@@ -258,7 +258,7 @@ def parts(tier):
     return [Part("scale", strategy=lambda t: scale_partial_case(t), check=check_partial, quick=(2, 40), thorough=(4, 500)), Part("flag_empty0", enumerate_cases=(lambda t: empty(0, 1)), check=check_flags, time_quick=120.0), Part("partial_empty0", enumerate_cases=(lambda t: ({"model": c_["model"], "pi": [[0, 0, 0]] * 4, "extra": []} for c_ in empty(0, 1))), check=check_partial, time_quick=120.0), Part("wide_nodes", strategy=lambda t: wide_partial_case(t), check=check_partial, quick=(3, 250), thorough=(6, 2500))] + [Part("flag_shapes%d" % i, enumerate_cases=(lambda t, i=i: shapes(i, 2)), check=check_flags, time_quick=120.0) for i in range(2)] + \
            [Part("partial_shapes%d" % i, enumerate_cases=(lambda t, i=i: shapes_partial(i, 4)), check=check_partial, time_quick=120.0) for i in range(4)] + [
         Part("partial", strategy=lambda t: partial_case(t), check=check_partial, quick=(6, 350), thorough=(12, 2500)),
-        Part("flags", strategy=lambda t: S.model_spec(depth=3, allow_fix=True, allow_const_leaves=True,
-                                                      profile="large").map(lambda s: {"model": s}),
+        Part("flags", strategy=lambda t: st.sampled_from(["large", "huge"]).flatmap(lambda pr_: S.model_spec(depth=3, allow_fix=True, allow_const_leaves=True,
+                                                      profile=pr_)).map(lambda s: {"model": s}),
              check=check_flags, quick=(2, 600), thorough=(4, 3000)),
     ]
